@@ -74,6 +74,15 @@ package fiber
 
 // ---- the default handler: the status of a framework error becomes the response status ---------------
 // isFiberErr/fiberErrCode: what errors.As(err, &e) with e *Error finds (mw_C08.spec).
+// The names the assumed contract of errors.As uses for the type *Error in this package (see mw_C08.spec):
+//@ macro isFiberErrTarget(t) = typeis(t, **Error)
+//@ macro fiberErrTarget(t) = *unbox(t, **Error)
+//@ macro isFiberErrValue(e) = typeis(e, *Error)
+//@ macro fiberErrValue(e) = unbox(e, *Error)
+//@ macro isSmallBufTarget(t) = typeis(t, **fasthttp.ErrSmallBuffer)
+//@ macro isOpErrTarget(t) = typeis(t, **net.OpError)
+//@ macro opErrTarget(t) = *unbox(t, **net.OpError)
+//@ macro isNetErrTarget(t) = typeis(t, *net.Error)
 //@ func DefaultErrorHandler
 //@   ensures framework-error-status: isFiberErr(err) ==> sentStatus == fiberErrCode(err, epoch)
 //@   ensures other-error-500: !isFiberErr(err) ==> sentStatus == StatusInternalServerError
@@ -106,6 +115,9 @@ package fiber
 //@   requires fresh-request: rctx != nil && ehCalls == 0 && sentStatus == 0
 //@   atcall (*App).next: [C07] method-known: ctx.methodInt != -1
 //@   atcall (*App).next: [C05] context-state-from-this-request: chainEntry(ctx, rctx)
+// [C07] the handlers of the chain get a context whose Req()/Res() helpers are bound to it and that is attached to this request
+// (what every forwarder of req.go / res.go requires: boundHelper, zz_contracts_reqres_verif.go; established by Reset)
+//@   atcall (*App).next: [C07] helpers-bound-at-chain-start: boundHelper(ctx.req) && boundHelper(ctx.res) && ctx.req.ctx == ctx && ctx.res.ctx == ctx && ctx.fasthttp == rctx
 //@   atcall (*Redirect).parseAndClearFlashMessages: [C12] flash-parsed-for-this-request: r == ctx.redirect && r.c == ctx
 //@   atcall (*App).next: [C12] no-flash-header-no-messages: !called((*Redirect).parseAndClearFlashMessages) ==> len(ctx.flashMessages) == 0
 //@   atcall (*App).next: [C12] flash-header-parsed: strContains(hdrRaw(&ctx.fasthttp.Request.Header, epochNow), "fiber_flash") ==> called((*Redirect).parseAndClearFlashMessages)
